@@ -150,6 +150,9 @@ class ResolveSpec(Spec):
                 fid = what.get("finding") if isinstance(what, dict) else None
                 text = what["what"] if isinstance(what, dict) else what
                 res["oracle_failures"].append({"id": cid, "what": text, "finding": fid, "case": gen.strip_struct(case)})
+            if not cid.startswith("finding-"):
+                for text in O.fidelity(case, o)[:2]:
+                    res["oracle_failures"].append({"id": cid, "what": "input fidelity: " + text, "finding": None, "case": gen.strip_struct(case)})
             if self.nontrivial(case, o, rep):
                 h = hashlib.sha256(json.dumps(pi, sort_keys=True).encode()).hexdigest()
                 if h not in seen_proj:
@@ -175,16 +178,20 @@ class ResolveSpec(Spec):
 
 
 def required_pairs(rep, o):
-    """(node index, criterion) pairs required of third-party nodes, from the
-    implementation's own requirement vector"""
+    """(node index, criterion) pairs required of third-party nodes — computed from the policy rules by the
+    independent fixpoint of tools/oracle.py (NOT taken from the implementation's own requirement vector)"""
     table = O.table_of(o["model_input"]["store"])
     nodes, _ = O.graph_nodes(o["model_input"]["graph"])
     n = O.ncrit(table)
+    R = o.get("_indep_reqs")
+    if R is None:
+        R, _ = O.requirements(table, o["model_input"]["graph"])
+        o["_indep_reqs"] = R if R is not None else False
     out = []
     for i, nd in enumerate(nodes):
         if nd["third"]:
             for c in range(n):
-                if (rep.reqs[i] >> c) & 1:
+                if (c in R[i]) if R else ((rep.reqs[i] >> c) & 1):
                     out.append((i, c))
     return out
 
@@ -1144,6 +1151,28 @@ class C08(SimpleSpec):
                     out.append(f"pre-checks pass although {p['name']} matches a crates.io crate and has no audit-as-crates-io choice")
                 if ok and aa is True and not matches(p):
                     out.append(f"pre-checks pass although {p['name']} claims audit-as-crates-io = true for something crates.io does not know")
+        # the version an unpublished one is audited as (independent of the implementation's own choice):
+        # only for versions crates.io does NOT serve; the nearest earlier published version, else the next later
+        up = o.get("unpublished")
+        if isinstance(up, list):
+            rec = {(x[0], x[1]): x[2] for x in up if x[3]}
+            for p in pkgs:
+                e = pol_for(p) or {}
+                if p["source"] != "path" or p.get("workspace") or e.get("audit-as-crates-io") is not True:
+                    continue
+                served = [r["version"] for r in reg["packages"].get(p["name"], [])]
+                if not served or any(x not in gen.VERSIONS for x in served + [p["version"]]):
+                    continue
+                got = rec.get((p["name"], p["version"]))
+                if p["version"] in served:
+                    if got is not None:
+                        out.append(f"{p['name']} {p['version']} is served by crates.io but was recorded as unpublished, audited as {got}")
+                    continue
+                me = gen.VERSIONS.index(p["version"])
+                below = [x for x in served if gen.VERSIONS.index(x) < me]
+                want = max(below, key=gen.VERSIONS.index) if below else min(served, key=gen.VERSIONS.index)
+                if got != want:
+                    out.append(f"unpublished {p['name']} {p['version']} is audited as {got}; the nearest earlier (else next later) published version is {want}")
         if ok:
             for key, e in pol.items():
                 n, _, v = key.partition(":")
@@ -1503,6 +1532,31 @@ def classify_panic(case, detail):
     return None
 
 
+def dangling_present(case, site):
+    """is the injected dangling reference still in the files as finally generated?  A later injected fault may have
+    deleted the carrying definition or truncated the file before it."""
+    where = {"SExemption": "config", "SPolicy": "config", "SPolicyDev": "config", "SPolicyDep": "config", "SCriteriaMap": "config",
+             "SImplies": "audits", "SAudit": "audits", "SWildcard": "audits", "STrusted": "audits",
+             "SLockAudit": "imports", "SLockWildcard": "imports"}.get(site)
+    text = (case.get("store") or {}).get(where, "") if where else ""
+    if where and "ghost-crit" not in text:
+        return False
+    if site != "SImplies":
+        return True
+    try:
+        import tomllib
+        crit = tomllib.loads(case["store"]["audits"]).get("criteria", {})
+    except Exception:
+        return True
+    known = set(crit) | set(gen.BUILTINS)
+    for v in crit.values():
+        imp = v.get("implies", []) if isinstance(v, dict) else []
+        imp = [imp] if isinstance(imp, str) else imp
+        if any(x not in known for x in imp):
+            return True
+    return False
+
+
 def table_fault_present(case, kind):
     """is the injected table fault still in the store as generated?  (a later fault may have deleted the definition)"""
     crit = (case.get("store_struct") or {}).get("criteria")
@@ -1625,7 +1679,7 @@ class C15(SimpleSpec):
         used = lambda s: (not locked) if s == "SCriteriaMap" else (locked if s in ("SLockAudit", "SLockWildcard") else True)  # noqa
         if c == "proceeds":
             for f in faults:
-                if f["kind"] == "dangling" and used(f["site"]):
+                if f["kind"] == "dangling" and used(f["site"]) and dangling_present(case, f["site"]):
                     out.append(f"a reference to an undefined criterion ({f['site']}) was not refused and reached the resolver")
                 if f["kind"] in ("table-cycle", "table-shadow") and table_fault_present(case, f["kind"]):
                     out.append(f"an ill-formed criteria table ({f['kind']}) was accepted")
